@@ -382,7 +382,7 @@ def parseAdvancedQuantity : P α (Option (ParsedQuantity α)) := do
   let lock ← scalingLock
   let _ ← wsComments
   let vt ← consumeWhile (fun k => k != .word)
-  match vt.getLast? with
+  match vt.reverse.find? (fun t => t.kind != .blockComment) with
   | none => return none
   | some l =>
     if l.kind != .ws then return none
